@@ -26,6 +26,8 @@ type SOp struct {
 	K   string `json:"k"`
 	V   int    `json:"v,omitempty"`
 	Set []int  `json:"set,omitempty"`
+	// Self: addset/remset with the receiver itself as the argument (s.AddSet(s), s.RemoveSet(s))
+	Self bool `json:"self,omitempty"`
 }
 
 type Rec struct {
@@ -43,6 +45,9 @@ func (r Rec) String() string {
 	case "add", "rem", "has":
 		return fmt.Sprintf("[%d,%d] T%d %s(%d)=%v", r.Inv, r.Resp, r.Th, r.Op.K, r.Op.V, r.B)
 	case "addset", "remset":
+		if r.Op.Self {
+			return fmt.Sprintf("[%d,%d] T%d %s(the receiver itself)=%d", r.Inv, r.Resp, r.Th, r.Op.K, r.N)
+		}
 		return fmt.Sprintf("[%d,%d] T%d %s(%v)=%d", r.Inv, r.Resp, r.Th, r.Op.K, r.Op.Set, r.N)
 	case "len":
 		return fmt.Sprintf("[%d,%d] T%d Len()=%d", r.Inv, r.Resp, r.Th, r.N)
@@ -60,6 +65,14 @@ func exec(s *sync2.Set[int], op SOp, r *Rec) {
 	case "has":
 		r.B = s.Has(op.V)
 	case "addset", "remset":
+		if op.Self {
+			if op.K == "addset" {
+				r.N = s.AddSet(s)
+			} else {
+				r.N = s.RemoveSet(s)
+			}
+			return
+		}
 		arg := make(maps.Set[int])
 		for _, v := range op.Set {
 			arg.Add(v)
@@ -83,6 +96,9 @@ func touches(r Rec, v int) bool {
 	case "add", "rem":
 		return r.Op.V == v
 	case "addset", "remset":
+		if r.Op.Self {
+			return true
+		}
 		for _, e := range r.Op.Set {
 			if e == v {
 				return true
@@ -131,6 +147,10 @@ func CheckHistory(init map[int]bool, universe []int, hist []Rec) string {
 			fixed[r.Op.V] = append(fixed[r.Op.V], hasOp(r.Inv, r.Resp, r.B, r.String()))
 		case "addset", "remset":
 			elems := append([]int(nil), r.Op.Set...)
+			if r.Op.Self {
+				// the argument is whatever the Range over the receiver itself visits: any value of the universe, each at most once
+				elems = append([]int(nil), universe...)
+			}
 			sort.Ints(elems)
 			if r.N < 0 || r.N > len(elems) {
 				return fmt.Sprintf("%s returned a count outside 0..%d", r, len(elems))
@@ -180,11 +200,29 @@ func CheckHistory(init map[int]bool, universe []int, hist []Rec) string {
 			r := hist[ch.rec]
 			for ei, v := range ch.elems {
 				b := bits[ci][ei]
+				switch {
+				case r.Op.Self && r.Op.K == "addset":
+					// visited and gained (it was removed by somebody else after the visit), or: not visited / already there - no constraint
+					if b {
+						per[v] = append(per[v], addOp(r.Inv, r.Resp, true, ""))
+					}
+				case r.Op.Self && r.Op.K == "remset":
+					// removed, or: not visited / already gone - then it was absent at some moment unless a mutator overlaps
+					if b {
+						per[v] = append(per[v], remOp(r.Inv, r.Resp, true, ""))
+					} else if !overlapsMut(hist, ch.rec, v) {
+						per[v] = append(per[v], hasOp(r.Inv, r.Resp, false, ""))
+					}
+				}
 				switch r.Op.K {
 				case "addset":
-					per[v] = append(per[v], addOp(r.Inv, r.Resp, b, ""))
+					if !r.Op.Self {
+						per[v] = append(per[v], addOp(r.Inv, r.Resp, b, ""))
+					}
 				case "remset":
-					per[v] = append(per[v], remOp(r.Inv, r.Resp, b, ""))
+					if !r.Op.Self {
+						per[v] = append(per[v], remOp(r.Inv, r.Resp, b, ""))
+					}
 				case "len":
 					if b {
 						per[v] = append(per[v], hasOp(r.Inv, r.Resp, true, ""))
@@ -399,6 +437,9 @@ func RunSched(c Case) pbt.Outcome {
 	for _, r := range hist {
 		if r.Th >= 0 && (r.Op.K == "addset" || r.Op.K == "remset" || r.Op.K == "len") {
 			out.Labels = append(out.Labels, "has:"+r.Op.K)
+			if r.Op.Self {
+				out.Labels = append(out.Labels, "has:"+r.Op.K+"(the receiver itself)")
+			}
 		}
 	}
 	sort.Strings(out.Labels)
@@ -504,6 +545,10 @@ func genSOp(vals int, withBulk bool) *rapid.Generator[SOp] {
 		case "add", "rem", "has":
 			op.V = rapid.IntRange(0, vals-1).Draw(t, "v")
 		case "addset", "remset":
+			if rapid.IntRange(0, 3).Draw(t, "self") == 2 {
+				op.Self = true
+				return op
+			}
 			mask := rapid.IntRange(1, 1<<vals-1).Draw(t, "members")
 			for v := 0; v < vals; v++ {
 				if mask&(1<<v) != 0 {
@@ -555,7 +600,7 @@ func gen(t *rapid.T, withSched bool) Case {
 }
 
 const ruleCommon = "oracle = per-value linearizability against a boolean register (Add true iff absent->present, Remove true iff present->absent, Has reads) incl. a quiescent postlude " +
-	"(Has of every value, Slice, Len); AddSet/RemoveSet counts must equal the number of per-element successes for SOME outcome assignment keeping every value linearizable; " +
+	"(Has of every value, Slice, Len); AddSet/RemoveSet (one in four with the receiver itself as the argument) counts must equal the number of per-element successes for SOME outcome assignment keeping every value linearizable; " +
 	"Len/Slice follow the Range rule (each value at most once, counted only if present at some moment of the call, missed only if absent at some moment unless a mutator overlaps); no deadlock, no panic"
 
 var specSched = pbt.Register(&pbt.Spec[Case]{
@@ -594,7 +639,7 @@ func enumPrograms(yield func(c Case) bool) {
 		}
 	}
 	progsB := [][]SOp{{{K: "add", V: 0}}, {{K: "rem", V: 0}}, {{K: "has", V: 0}}, {{K: "addset", Set: []int{0}}}, {{K: "remset", Set: []int{0}}},
-		{{K: "addset", Set: []int{0, 1}}}, {{K: "len"}}, {{K: "add", V: 1}}}
+		{{K: "addset", Set: []int{0, 1}}}, {{K: "len"}}, {{K: "add", V: 1}}, {{K: "remset", Self: true}}, {{K: "addset", Self: true}}}
 	for _, setup := range setupRecipes {
 		for _, a := range progsA {
 			for _, b := range progsB {
@@ -608,7 +653,7 @@ func enumPrograms(yield func(c Case) bool) {
 
 var specSchedEnum = pbt.Register(&pbt.Spec[Case]{
 	Property: "C05", Name: "C05.schedenum",
-	Rule: "E3 bounded-exhaustive: 7 setup recipes (layouts of the underlying Map) x thread A with 1..2 of {Add,Remove,Has}(0) x thread B with one of {Add,Remove,Has,AddSet,RemoveSet,Len,Add(other)}; for each program ALL schedules with " +
+	Rule: "E3 bounded-exhaustive: 7 setup recipes (layouts of the underlying Map) x thread A with 1..2 of {Add,Remove,Has}(0) x thread B with one of {Add,Remove,Has,AddSet,RemoveSet,Len,Add(other),RemoveSet(the receiver itself),AddSet(the receiver itself)}; for each program ALL schedules with " +
 		"at most 2 (thorough: 3) non-default scheduling choices, by stateless re-execution; " + ruleCommon,
 	Enum: func(shard, shards int, tier string, yield func(Case) bool) {
 		bound := 2
